@@ -33,6 +33,7 @@ def base_scripts(rng, k):
         out.append(c02.history(rng, "portable", rng.randrange(2, 14), 80 * 1024))
         out.append(c03.history(rng, "portable", rng.randrange(2, 12)))
         out.append(c09.decomp_script(rng, "portable", 100 * 1024))
+    out += c03.boundary_grid(rng, "portable", 18)
     return out
 
 
@@ -42,10 +43,10 @@ def stages(tier, seed, witness_search=False):
     if witness_search:
         k *= 3
     scripts = replicate(base_scripts(rng, k))
-    st = [LineStage("default-build", scripts, normalize=c03.normalize), LineStage("pure-build", scripts, features=("pure",), normalize=c03.normalize)]
+    st = [LineStage("default-build", scripts, normalize=norm_all), LineStage("pure-build", scripts, features=("pure",), normalize=norm_all)]
     if tier == "thorough":
         for f in ["prefer_intrinsics", "no_avx512", "no_avx2", "no_sse41", "no_sse2"]:
-            st.append(LineStage(f + "-build", scripts, features=(f,), normalize=c03.normalize))
+            st.append(LineStage(f + "-build", scripts, features=(f,), normalize=norm_all))
     return st
 
 
@@ -54,4 +55,4 @@ def replay(d, lean_exe):
     st = d.get("stage", "")
     if st.endswith("-build") and st != "default-build":
         feats = (st[:-6],)
-    return replay_line(d, lean_exe, features=feats, normalize=c03.normalize)
+    return replay_line(d, lean_exe, features=feats, normalize=norm_all)
